@@ -18,7 +18,9 @@ import (
 
 // C10 — client URLs. Cases:
 //   url     Runtime.CreateHttpRequest on (base path, pattern, path params, query params, scheme lists, host),
-//           run several times with the parameters written in several orders; the distinct results are the observable
+//           run several times with the parameters written in several orders; the distinct results are the observable.
+//           The base path is handed to the REAL constructor (client.New / NewWithClient) - what the constructor makes of it
+//           (path part and query string) is part of what is checked; a share of the cases assigns Runtime.BasePath directly.
 //   scheme  scheme selection alone (exhaustive over short lists)
 //   esc     url.PathEscape / PathUnescape / EscapedPath on one string (ties the library models)
 //   join    path.Join of two strings
@@ -44,7 +46,10 @@ type c10Step struct {
 }
 
 type c10In struct {
-	Kind    string    `json:"kind"`
+	Kind string `json:"kind"`
+	// url, hist: how the Runtime gets its base path: "" = client.New(host, base, schemes), "withclient" = client.NewWithClient,
+	// "direct" = the exported field Runtime.BasePath assigned after the constructor ran
+	Ctor    string    `json:"ctor,omitempty"`
 	Base    Bs        `json:"base,omitempty"`
 	Pattern Bs        `json:"pattern,omitempty"`
 	PP      []c10KV   `json:"pp,omitempty"`
@@ -89,7 +94,10 @@ func init() { register(c10{}) }
 func (c10) ID() string        { return "C10" }
 func (c10) CoqModule() string { return "Check_C10" }
 func (c10) Rule() string {
-	return "url: base paths (with/without leading or trailing slash, with query, with space/non-ASCII/escapes) x patterns of 1-5 segments " +
+	return "url: base paths (with/without leading or trailing slash, with query, with space/non-ASCII/escapes; handed to the real constructor " +
+		"client.New / NewWithClient, a fifth assigned to Runtime.BasePath directly; a quarter with static query names and values that look like " +
+		"paths or URLs: double slashes, dot and dot-dot segments, trailing slashes, escaped separators - also in the pattern's query and " +
+		"enumerated over a fixed table) x patterns of 1-5 segments " +
 		"(literals incl. space, non-ASCII, percent escapes, dots; 0-4 placeholders alone or embedded in a segment; trailing slash; static query; " +
 		"an adversarial share with stray braces, unreplaced placeholders, escaped separators) x values (arbitrary bytes, look-alike placeholders, " +
 		"/ ? # % .. empty) x caller query sets colliding with the static ones x scheme lists; every case is run 12 times with the parameters " +
@@ -151,6 +159,15 @@ func (c10) Enumerate(tier string) []any {
 			}
 		}
 	}
+	// path-like static query values (see c10PQVals), each in the base path (four path parts, through client.New) and in the pattern
+	for i, v := range c10PQVals {
+		pp := []c10KV{{"id", "a/b"}}
+		for _, part := range []string{"/api", "api", "/api/v1/", ""} {
+			out = append(out, c10In{Kind: "url", Host: "h", Base: Bs(part + "?cb=" + v + "&mode=raw"), Pattern: "/pets/{id}", PP: pp})
+		}
+		out = append(out, c10In{Kind: "url", Host: "h", Base: Bs("/api?u/v=" + v), Pattern: Bs("/pets/{id}/?cb=" + v), PP: pp,
+			Ctor: []string{"", "withclient", "direct"}[i%3]})
+	}
 	// every single byte through the escaping functions
 	for c := 0; c < 256; c++ {
 		out = append(out, c10In{Kind: "esc", V: Bs([]byte{byte(c)})})
@@ -167,8 +184,48 @@ var c10Keys = []string{"id", "name", "other", "n", "petId", "a.b", "x-y", "a b",
 var c10Vals = []string{"x/y", "a?b", "a#b", "a%b", "..", ".", "", "{other}", "{id}", "{n}", "%2F", "%7Bn%7D", "a b", "\xc3\xa9\xe2\x88\x9a", "\x00", "a+b", "a&b=c",
 	":", ";,", "plain123", "1", "42", "../..", "/", "//", "?", "#", "%", "{", "}", "{}", "a/b/c", "x\ty", "\x7f", "~", "a=b", "@", "$", "\xff\xfe"}
 var c10QNames = []string{"a", "shared", "bonly", "k", "k2", "q", "x", "x y", "a&b", "ponly", "\xc3\xa9"}
-var c10QVals = []string{"1", "caller", "", "a b", "a&b=c", "x/y", "\xc3\xa9", "%41", "a+b", "#"}
+var c10QVals = []string{"1", "caller", "", "a b", "a&b=c", "x/y", "\xc3\xa9", "%41", "a+b", "#", "/a//b/", "x/../y", "https://h//p/./"}
 var c10Schemes = []string{"http", "https", "ws", "wss", "", "HTTPS"}
+
+// static query strings whose names and values look like paths or URLs (double slashes, dot segments, trailing slashes, escaped
+// separators): whatever is done to the PATH of a base path or pattern (joining, cleaning, trimming) must leave them as written
+var c10PQNames = []string{"callback", "dir", "path", "next", "x", "shared", "k", "u/v", "a//b", "q", "bonly", "../up"}
+var c10PQVals = []string{"https://example.com//hooks/", "/var/data/", "a/../b", "./y", "../..", "/a/./b", "x//y", "http://h:80/p/../q", "/", "//",
+	"/.", "/..", "a/", "..", ".", "%2F%2F", "/a%2F..%2Fb/", "/../", "//host/share/", "a/./", "s3://bucket//key/../k2/", "/tail/..", "/./", "a/b/../../../c",
+	"HTTP://Example.COM/A/", "/%2e%2e/x", "///", "1"}
+var c10PQParts = []string{"/api", "/api/v1/", "api", "", "/", "/v1", "/a/b/", "v2/", "/api/../v3", "//dbl"}
+
+func c10PathLikeQuery(r *rand.Rand) string {
+	n := 1 + r.Intn(3)
+	var parts []string
+	for i := 0; i < n; i++ {
+		v := c10PQVals[r.Intn(len(c10PQVals))]
+		if r.Intn(5) == 0 {
+			v += c10PQVals[r.Intn(len(c10PQVals))]
+		}
+		parts = append(parts, c10PQNames[r.Intn(len(c10PQNames))]+"="+v)
+	}
+	return strings.Join(parts, "&")
+}
+
+// c10Base draws a base path: the fixed table, or (one in four) a path part followed by a path-like query string
+func c10Base(r *rand.Rand) string {
+	if r.Intn(4) == 0 {
+		return c10PQParts[r.Intn(len(c10PQParts))] + "?" + c10PathLikeQuery(r)
+	}
+	return c10Bases[r.Intn(len(c10Bases))]
+}
+
+// c10Ctor draws how the Runtime receives its base path (see c10In.Ctor)
+func c10Ctor(r *rand.Rand) string {
+	switch r.Intn(10) {
+	case 0, 1:
+		return "direct"
+	case 2:
+		return "withclient"
+	}
+	return ""
+}
 
 func c10Bytes(r *rand.Rand, n int) string {
 	b := make([]byte, n)
@@ -224,10 +281,10 @@ func (c10) Gen(r *rand.Rand, tier string, i int) any {
 // c10GenHist: one Runtime (host, base path, transport schemes fixed), 2-4 operations that differ in pattern, parameters,
 // caller query and scheme list. Half of the histories have a Runtime without schemes of its own (the operation decides).
 func c10GenHist(r *rand.Rand) c10In {
-	in := c10In{Kind: "hist", Host: "api.example.com:8080"}
+	in := c10In{Kind: "hist", Host: "api.example.com:8080", Ctor: c10Ctor(r)}
 	switch r.Intn(4) {
 	case 0:
-		in.Base = Bs(c10Bases[r.Intn(len(c10Bases))])
+		in.Base = Bs(c10Base(r))
 	default:
 		plain := []string{"/", "/api", "/api/v1/", "/v1?shared=base&bonly=1", "/api/?k=b&k2=b2", ""}
 		in.Base = Bs(plain[r.Intn(len(plain))])
@@ -256,8 +313,8 @@ func c10GenHist(r *rand.Rand) c10In {
 }
 
 func c10GenURL(r *rand.Rand, adversarial bool) c10In {
-	in := c10In{Kind: "url", Host: "api.example.com:8080"}
-	in.Base = Bs(c10Bases[r.Intn(len(c10Bases))])
+	in := c10In{Kind: "url", Host: "api.example.com:8080", Ctor: c10Ctor(r)}
+	in.Base = Bs(c10Base(r))
 	// keys used by this case
 	nkeys := r.Intn(5)
 	perm := r.Perm(len(c10Keys))
@@ -315,6 +372,8 @@ func c10GenURL(r *rand.Rand, adversarial bool) c10In {
 		if adversarial {
 			sb.WriteString("#frag")
 		}
+	case 4:
+		sb.WriteString("?" + c10PathLikeQuery(r))
 	}
 	in.Pattern = Bs(sb.String())
 	if adversarial && r.Intn(10) == 0 {
@@ -373,9 +432,25 @@ func c10Order(ppIn []c10KV, run int) []c10KV {
 }
 
 func c10NewRuntime(in c10In) *client.Runtime {
-	rt := client.New(string(in.Host), "/", bsList(in.RS))
-	rt.BasePath = string(in.Base)
-	return rt
+	switch in.Ctor {
+	case "direct":
+		rt := client.New(string(in.Host), "/", bsList(in.RS))
+		rt.BasePath = string(in.Base)
+		return rt
+	case "withclient":
+		return client.NewWithClient(string(in.Host), string(in.Base), bsList(in.RS), nil)
+	}
+	return client.New(string(in.Host), string(in.Base), bsList(in.RS))
+}
+
+// c10RtBase is the base path the property speaks about for this case: the constructor's argument with a slash in front
+// when it has none (the documented behaviour of client.New), or the text assigned to the field.
+func c10RtBase(in c10In) string {
+	b := string(in.Base)
+	if in.Ctor != "direct" && !strings.HasPrefix(b, "/") {
+		b = "/" + b
+	}
+	return b
 }
 
 // c10Build builds one operation's request on the given Runtime and projects it.
@@ -464,7 +539,7 @@ func (d *c10Distinct) sorted() []c10Out {
 }
 
 func c10StepIn(in c10In, st c10Step) c10In {
-	return c10In{Kind: "url", Base: in.Base, Host: in.Host, RS: in.RS, Pattern: st.Pattern, PP: st.PP, QP: st.QP, OS: st.OS}
+	return c10In{Kind: "url", Ctor: in.Ctor, Base: in.Base, Host: in.Host, RS: in.RS, Pattern: st.Pattern, PP: st.PP, QP: st.QP, OS: st.OS}
 }
 
 func (c10) Run(inAny any) any {
@@ -549,7 +624,7 @@ func (c10) Coq(inAny any, obsAny any) string {
 	in, obs := inAny.(c10In), obsAny.(c10Obs)
 	switch in.Kind {
 	case "url":
-		return fmt.Sprintf("CUrl %s %s %s %s %s %s %s %s", coqBytes(string(in.Base)), coqBytes(string(in.Pattern)),
+		return fmt.Sprintf("CUrl %s %s %s %s %s %s %s %s %s", coqBool(in.Ctor != "direct"), coqBytes(string(in.Base)), coqBytes(string(in.Pattern)),
 			coqList(in.PP, func(kv c10KV) string { return coqPair(coqBytes(string(kv.K)), coqBytes(string(kv.V))) }),
 			c10CoqKVs(in.QP), coqBytesList(bsList(in.RS)), coqBytesList(bsList(in.OS)), coqBytes(string(in.Host)),
 			coqList(obs.Outs, c10CoqOut))
@@ -562,7 +637,7 @@ func (c10) Coq(inAny any, obsAny any) string {
 		for i, st := range in.Steps {
 			steps = append(steps, hs{st, obs.Hist[i], obs.Fresh[i]})
 		}
-		return fmt.Sprintf("CHist %s %s %s %s", coqBytes(string(in.Base)), coqBytesList(bsList(in.RS)), coqBytes(string(in.Host)),
+		return fmt.Sprintf("CHist %s %s %s %s %s", coqBool(in.Ctor != "direct"), coqBytes(string(in.Base)), coqBytesList(bsList(in.RS)), coqBytes(string(in.Host)),
 			coqList(steps, func(h hs) string {
 				return fmt.Sprintf("(HStep %s %s %s %s %s %s)", coqBytes(string(h.st.Pattern)),
 					coqList(h.st.PP, func(kv c10KV) string { return coqPair(coqBytes(string(kv.K)), coqBytes(string(kv.V))) }),
@@ -584,7 +659,7 @@ func (c10) Coq(inAny any, obsAny any) string {
 
 // c10Joined is the decoded joined pattern the client substitutes into (empty string when an input does not parse).
 func c10Joined(in c10In) (string, bool) {
-	b, err1 := url.Parse(string(in.Base))
+	b, err1 := url.Parse(c10RtBase(in))
 	p, err2 := url.Parse(string(in.Pattern))
 	if err1 != nil || err2 != nil {
 		return "", false
@@ -594,7 +669,7 @@ func c10Joined(in c10In) (string, bool) {
 
 // c10Substituted is the path handed to the URL parser (before the re-encoding of the literals), parameters in the listed order.
 func c10Substituted(in c10In) (string, bool) {
-	b, err1 := url.Parse(string(in.Base))
+	b, err1 := url.Parse(c10RtBase(in))
 	p, err2 := url.Parse(string(in.Pattern))
 	if err1 != nil || err2 != nil {
 		return "", false
@@ -615,6 +690,15 @@ func c10Substituted(in c10In) (string, bool) {
 		u += "/"
 	}
 	return u, true
+}
+
+// c10PathLikeStatic: the query string of a base path or pattern contains something a path normalisation would rewrite
+func c10PathLikeStatic(s string) bool {
+	_, q, ok := strings.Cut(s, "?")
+	if !ok {
+		return false
+	}
+	return strings.Contains(q, "//") || strings.Contains(q, "/.") || strings.HasSuffix(q, "/") || strings.Contains(q, "./")
 }
 
 // c10StrayBrace reports a brace that is not part of a {name} placeholder (name free of braces and slashes).
@@ -747,6 +831,12 @@ func (c10) Category(inAny any, obsAny any) (string, bool) {
 	}
 	if strings.Contains(string(in.Pattern), "?") || strings.Contains(string(in.Base), "?") {
 		tags = append(tags, "staticq")
+	}
+	if c10PathLikeStatic(string(in.Base)) || c10PathLikeStatic(string(in.Pattern)) {
+		tags = append(tags, "pathlike-staticq")
+	}
+	if in.Ctor != "" {
+		tags = append(tags, in.Ctor)
 	}
 	if len(in.QP) > 0 {
 		tags = append(tags, "callerq")
